@@ -165,6 +165,20 @@ class Iter:
         return 'Iter%r@%d%s' % (self.items, self.pos, '+lazy' if self.src is not None else '')
 
 
+class Map:
+    """HashMap / HashSet / BTreeMap / BTreeSet: insertion-ordered association list keyed by the normalised key.  `sorted` says
+    whether iteration is defined (B-tree: ascending keys) or not (hash: the order is random per process — iterating is refused)."""
+    __slots__ = ('d', 'sorted', 'is_set')
+
+    def __init__(self, sorted_, is_set):
+        self.d = {}          # normalised key -> (key, value)
+        self.sorted = sorted_
+        self.is_set = is_set
+
+    def __repr__(self):
+        return '%s%s{%d}' % ('BTree' if self.sorted else 'Hash', 'Set' if self.is_set else 'Map', len(self.d))
+
+
 class _Rev:
     """Sort key of core::cmp::Reverse(x)."""
     __slots__ = ('k',)
@@ -852,6 +866,8 @@ class VM:
             return self.run(m, [f] + list(args))
         if isinstance(f, Fn):
             return self.dispatch(f.path, f.path, list(args), None)
+        if isinstance(f, Struct) and f.name == 'Box':
+            return self.call_value(f.fields['0'].fields['0'].fields['0'], args)
         raise Unsupported('call of %r' % (f,))
 
     def _pred(self, f):
@@ -902,7 +918,10 @@ class VM:
             return self.binop({'lt': 'Lt', 'le': 'Le', 'gt': 'Gt', 'ge': 'Ge'}[last], d(args[0]), d(args[1]))
         if name in ('Ord::min', 'Ord::max', 'cmp::min', 'cmp::max'):
             a, b = d(args[0]), d(args[1])
-            return min(a, b) if last == 'min' else max(a, b)
+            ka, kb = self._sort_key(a), self._sort_key(b)
+            if last == 'min':
+                return a if ka <= kb else b
+            return b if kb >= ka else a
         if isinstance(a0, Struct) and a0.name in ('Range', 'RangeInclusive') and name.split('::')[0] in ('Iterator', 'DoubleEndedIterator') and last != 'next':
             lo, hi = a0.fields['start'], a0.fields['end'] + (1 if a0.name == 'RangeInclusive' else 0)
             return self.builtin(name, callee, [Iter(list(range(lo, max(lo, hi))))] + list(args[1:]), t)
@@ -911,6 +930,11 @@ class VM:
             if last == 'into_iter':
                 return args[0]
             return self.builtin(name, callee, [Iter(src=self._materialise_gen(a0))] + list(args[1:]), t)
+        if name in ('Index::index',) and isinstance(a0, Map):
+            e = a0.d.get(self._norm(args[1]))
+            if e is None:
+                raise Panic('key not found in map')
+            return e[1]
         if name in ('Index::index', 'IndexMut::index_mut') and isinstance(a0, str):
             r = d(args[1])
             b = a0.encode('utf-8')
@@ -1171,6 +1195,9 @@ class VM:
                     v_ = int(s)
                     lo, hi = (-(1 << (bits - 1)), (1 << (bits - 1)) - 1) if signed else (0, (1 << bits) - 1)
                     return Enum('core::result::Result', 'Ok', [v_]) if lo <= v_ <= hi else err
+                cands_ = [p_ for p_ in self.facts.mir if p_.startswith('<%s as ' % ga) and p_.endswith('FromStr>::from_str')]
+                if len(cands_) == 1:
+                    return self.run(self.facts.mir_body(cands_[0]), [s])
                 raise Unsupported('str::parse::<%s>' % ga)
             raise Unsupported('str method ' + name)
         if name in ('converts::from_utf8', 'str::from_utf8') and isinstance(a0, (Seq, Slice)):
@@ -1178,9 +1205,9 @@ class VM:
                 return Enum('core::result::Result', 'Ok', [bytes(a0.items).decode('utf-8')])
             except (UnicodeDecodeError, ValueError):
                 return Enum('core::result::Result', 'Err', ['Utf8Error'])
-        if name in ('Write::write_fmt', 'Write::write_str', 'Write::write_char') and isinstance(a0, str):
+        if name in ('Write::write_fmt', 'Write::write_str', 'Write::write_char', 'Formatter::write_fmt', 'Formatter::write_str', 'Formatter::write_char') and isinstance(a0, str):
             x = d(args[1])
-            if name == 'Write::write_fmt':
+            if last == 'write_fmt':
                 x = self.builtin('fmt::format', 'alloc::fmt::format', [x], t)
             self.store(args[0], a0 + x)
             return Enum('core::result::Result', 'Ok', [()])
@@ -1832,6 +1859,16 @@ class VM:
                 self.heap[key] = ''
                 self.run(self.facts.mir_body(imp), [v, Ref('heap', key)])
                 return self.heap.pop(key)
+        if debug and isinstance(v, Enum):
+            imp = self.find_impl((v.adt or '').split('::')[-1], 'core::fmt::Debug', 'fmt') if v.adt else None
+            if imp:
+                self.heap_counter = getattr(self, 'heap_counter', 0) + 1
+                key = '$fmt%d' % self.heap_counter
+                self.heap[key] = ''
+                self.run(self.facts.mir_body(imp), [v, Ref('heap', key)])
+                return self.heap.pop(key)
+            if (v.adt or '').startswith('core::'):
+                return v.variant + ('(%s)' % ', '.join(self.display(x, True) for x in v.payload) if v.payload else '')
         raise Unsupported('%s of %r' % ('Debug' if debug else 'Display', v))
 
     def _spec(self, txt, opts, v):
@@ -1962,12 +1999,37 @@ class VM:
         if callee in ('core::char::methods::<impl char>::from_digit', 'core::char::from_digit', 'core::char::convert::from_digit') and isinstance(a0, int):
             radix = d(args[1])
             return Some('0123456789abcdefghijklmnopqrstuvwxyz'[a0]) if a0 < radix else NONE
+        if name.startswith('Formatter::debug_') and isinstance(a0, str) and name.endswith('_finish'):
+            vals = [d(x) for x in args[1:]]
+            nm = vals[0]
+            if 'debug_tuple' in name:
+                fields = vals[1:]
+                if name.endswith('fields_finish'):
+                    fields = list(d(vals[1]).items)
+                txt = nm + ('(%s)' % ', '.join(self.display(x, True) for x in fields) if fields else '')
+            else:
+                if name.endswith('fields_finish'):
+                    names_, values_ = [d(x) for x in d(vals[1]).items], list(d(vals[2]).items)
+                else:
+                    rest_ = vals[1:]
+                    names_, values_ = rest_[0::2], rest_[1::2]
+                txt = '%s { %s }' % (nm, ', '.join('%s: %s' % (k_, self.display(v_, True)) for k_, v_ in zip(names_, values_))) if names_ else nm
+            self.store(args[0], a0 + txt)
+            return Enum('core::result::Result', 'Ok', [()])
+        if name in ('Display::fmt', 'Debug::fmt') and len(args) == 2 and isinstance(d(args[1]), str) and isinstance(a0, (str, int, float, bool)):
+            self.store(args[1], d(args[1]) + self.display(a0, name == 'Debug::fmt'))
+            return Enum('core::result::Result', 'Ok', [()])
+        if name in ('PartialEq::eq', 'PartialEq::ne') and len(args) == 2 and isinstance(a0, (Struct, Enum, Seq, Slice, tuple)):
+            b0 = d(args[1])
+            if isinstance(b0, (Struct, Enum, Seq, Slice, tuple)):
+                return (self._norm(a0) == self._norm(b0)) == (last == 'eq')
         if name == 'Clone::clone' and isinstance(a0, Iter):
             return copy.deepcopy(a0)
         if name in ('Box::new',) and len(args) == 1:
             cell = Seq([args[0]])
             return Struct('Box', {'0': Struct('Unique', {'0': Struct('NonNull', {'0': Ref('obj', cell, (0,))})})})
-        if name == 'Deref::deref' and isinstance(a0, Struct) and a0.name == 'Box':
+        if name in ('Deref::deref', 'DerefMut::deref_mut', 'AsRef::as_ref', 'AsMut::as_mut', 'Box::as_ref', 'Box::as_mut', 'Borrow::borrow', 'BorrowMut::borrow_mut') \
+                and isinstance(a0, Struct) and a0.name == 'Box':
             return a0.fields['0'].fields['0'].fields['0']
         if name.startswith('Ordering::') and isinstance(a0, Enum) and a0.variant in ('Less', 'Equal', 'Greater'):
             v_ = {'Less': -1, 'Equal': 0, 'Greater': 1}[a0.variant]
@@ -2041,6 +2103,108 @@ class VM:
                         out.extend(list(sep.items) if isinstance(sep, (Seq, Slice)) else [sep])
                     out.extend(x.items)
                 return Seq(out)
+        # --- maps and sets
+        m_c = re.match(r'^(?:std|alloc)::collections::(?:hash::(map|set)::Hash(?:Map|Set)|btree::(map|set)::BTree(?:Map|Set))(?:::<.*>|<.*>)?::(\w+)$', callee)
+        if m_c and last in ('new', 'with_capacity', 'from', 'default') and not isinstance(a0, Map):
+            mp = Map(sorted_=m_c.group(2) is not None, is_set=(m_c.group(1) or m_c.group(2)) == 'set')
+            if last == 'from':
+                self._map_extend(mp, args[0])
+            return mp
+        if name in ('From::from', 'FromIterator::from_iter', 'Default::default', 'Into::into') and not isinstance(a0, Map):
+            ga_ = ((t or {}).get('gargs', '') if isinstance(t, dict) else '').lstrip('[')
+            self_ty = callee[1:] if callee.startswith('<') else ga_
+            if name == 'Into::into':
+                self_ty = ga_.split(', ', 1)[1] if ', ' in ga_ else ''
+            m_s = re.match(r'^(?:std|alloc)::collections::(hash|btree)::(map|set)::(?:Hash|BTree)(?:Map|Set)\b', self_ty)
+            if m_s:
+                mp = Map(sorted_=m_s.group(1) == 'btree', is_set=m_s.group(2) == 'set')
+                if args:
+                    self._map_extend(mp, args[0])
+                return mp
+        if isinstance(a0, Map):
+            mp = a0
+            nk = lambda k: self._norm(k)        # noqa: E731
+            if last in ('len', 'is_empty'):
+                return len(mp.d) if last == 'len' else not mp.d
+            if last in ('contains_key', 'contains'):
+                return nk(args[1]) in mp.d
+            if last == 'get':
+                e = mp.d.get(nk(args[1]))
+                return NONE if e is None else Some(e[0] if mp.is_set else e[1])
+            if last == 'get_key_value':
+                e = mp.d.get(nk(args[1]))
+                return NONE if e is None else Some((e[0], e[1]))
+            if last == 'insert':
+                k = nk(args[1])
+                old_ = mp.d.get(k)
+                if mp.is_set:
+                    if old_ is None:
+                        mp.d[k] = (args[1], ())
+                    return old_ is None
+                mp.d[k] = ((old_[0] if old_ else args[1]), args[2])
+                return NONE if old_ is None else Some(old_[1])
+            if last == 'remove':
+                e = mp.d.pop(nk(args[1]), None)
+                if mp.is_set:
+                    return e is not None
+                return NONE if e is None else Some(e[1])
+            if last == 'clear':
+                mp.d.clear()
+                return ()
+            if last in ('extend', 'Extend::extend'):
+                self._map_extend(mp, args[1])
+                return ()
+            if last in ('clone',):
+                c = Map(mp.sorted, mp.is_set)
+                c.d = dict(mp.d)
+                return c
+            if last in ('iter', 'into_iter', 'keys', 'values', 'into_keys', 'into_values', 'drain', 'first', 'last', 'first_key_value', 'last_key_value', 'range',
+                        'pop_first', 'pop_last'):
+                if not mp.sorted and len(mp.d) > 1:
+                    raise Unsupported('iteration over a hash %s: the order differs from process to process' % ('set' if mp.is_set else 'map'))
+                ents = sorted(mp.d.values(), key=lambda e: self._sort_key(self.deref(e[0])))
+                if last in ('first', 'last', 'first_key_value', 'last_key_value', 'pop_first', 'pop_last'):
+                    if not ents:
+                        return NONE
+                    e = ents[0 if 'first' in last else -1]
+                    if last.startswith('pop'):
+                        mp.d.pop(nk(e[0]))
+                    return Some(e[0] if mp.is_set else (e[0], e[1]))
+                if last == 'range':
+                    raise Unsupported('BTree range')
+                if last == 'drain':
+                    mp.d.clear()
+                if mp.is_set or last in ('keys', 'into_keys'):
+                    return Iter([e[0] for e in ents])
+                if last in ('values', 'into_values'):
+                    return Iter([e[1] for e in ents])
+                return Iter([(e[0], e[1]) for e in ents])
+            if last == 'entry':
+                raise Unsupported('map entry API')
+            if last == 'reserve' or last == 'shrink_to_fit':
+                return ()
+        # --- write-once globals: LazyLock::new(f) in a static, OnceLock + get_or_init(f)
+        if name in ('LazyLock::new', 'LazyCell::new') and len(args) == 1:
+            return Struct('LazyLock', {'init': args[0], 'value': None, 'done': False})
+        if name in ('OnceLock::new', 'OnceCell::new') and not args:
+            return Struct('OnceLock', {'value': None, 'done': False})
+        if isinstance(a0, Struct) and a0.name == 'LazyLock' and last in ('force', 'deref'):
+            if not a0.fields['done']:
+                a0.fields['value'] = self.call_value(a0.fields['init'], [])
+                a0.fields['done'] = True
+            return Ref('obj', a0, ('value',))
+        if isinstance(a0, Struct) and a0.name == 'OnceLock' and last in ('get_or_init', 'get', 'set'):
+            if last == 'get':
+                return Some(Ref('obj', a0, ('value',))) if a0.fields['done'] else NONE
+            if last == 'set':
+                if a0.fields['done']:
+                    return Enum('core::result::Result', 'Err', [args[1]])
+                a0.fields['value'], a0.fields['done'] = args[1], True
+                return Enum('core::result::Result', 'Ok', [()])
+            if not a0.fields['done']:
+                a0.fields['value'] = self.call_value(args[1], [])
+                a0.fields['done'] = True
+            return Ref('obj', a0, ('value',))
         if name in ('RefCell::new', 'Cell::new') and len(args) == 1:
             return Struct('RefCell', {'value': args[0]})
         if isinstance(a0, Struct) and a0.name == 'RefCell' and last in ('borrow', 'borrow_mut', 'get_mut', 'into_inner', 'get', 'set', 'take', 'replace'):
@@ -2124,6 +2288,8 @@ class VM:
                 if not fit(v):
                     raise Panic('attempt to multiply with overflow')
                 return v
+            if meth == 'unsigned_abs':
+                return abs(a0)
             if meth == 'abs_diff':
                 return abs(a0 - b)
             if meth == 'abs':
@@ -2168,6 +2334,10 @@ class VM:
                     return a0 < 128 and CHAR_PRED[meth](c)
                 if meth == 'is_ascii':
                     return a0 < 128
+                extra_ = {'is_ascii_uppercase': 65 <= a0 <= 90, 'is_ascii_lowercase': 97 <= a0 <= 122, 'is_ascii_graphic': 33 <= a0 <= 126,
+                          'is_ascii_control': a0 < 32 or a0 == 127, 'is_ascii_hexdigit': a0 < 128 and c in '0123456789abcdefABCDEF'}
+                if meth in extra_:
+                    return extra_[meth]
                 if meth in ('to_ascii_uppercase', 'to_ascii_lowercase'):
                     return ord(c.upper() if meth.endswith('uppercase') else c.lower()) if a0 < 128 else a0
                 if meth == 'eq_ignore_ascii_case':
@@ -2425,6 +2595,31 @@ class VM:
                 write_back([self.call_value(args[1], []) for _ in items])
                 return ()
         return NotImplemented
+
+    def _map_extend(self, mp, src):
+        for x in self._as_iter(src).drain():
+            x = self.deref(x)
+            if mp.is_set:
+                mp.d.setdefault(self._norm(x), (x, ()))
+            else:
+                k, v = x
+                old_ = mp.d.get(self._norm(k))
+                mp.d[self._norm(k)] = ((old_[0] if old_ else k), v)
+
+    def _norm(self, v, depth=0):
+        """A value with every reference followed, as nested plain Python data: structural equality (what derived PartialEq computes)."""
+        if depth > 40:
+            raise Unsupported('equality of very deep values')
+        v = self.deref(v)
+        if isinstance(v, Struct):
+            return ('S', v.name, tuple((k, self._norm(x, depth + 1)) for k, x in v.fields.items()))
+        if isinstance(v, Enum):
+            return ('E', v.variant, tuple(self._norm(x, depth + 1) for x in v.payload))
+        if isinstance(v, (Seq, Slice)):
+            return ('L', tuple(self._norm(x, depth + 1) for x in v.items))
+        if isinstance(v, tuple):
+            return ('T', tuple(self._norm(x, depth + 1) for x in v))
+        return v
 
     def _sort_key(self, v):
         if isinstance(v, Struct) and v.name == 'Reverse':
@@ -2722,6 +2917,11 @@ class VM:
                 if 'string::String' in m_.group(2):
                     return okc(''.join(d(x) for x in out))
                 return okc(Seq(out))
+            m_ = re.search(r'(?:std|alloc)::collections::(hash|btree)::(map|set)::(?:Hash|BTree)(?:Map|Set)<[^\]]*\]?$', tail)
+            if m_ and not tail.rsplit(', ', 1)[-1].startswith(('alloc::vec', 'core::option', 'core::result')):
+                mp = Map(sorted_=m_.group(1) == 'btree', is_set=m_.group(2) == 'set')
+                self._map_extend(mp, it)
+                return mp
             return Seq(it.drain())
         if last in ('find', 'position'):
             pr = self._pred(args[1])
@@ -2773,15 +2973,16 @@ class VM:
                 acc = acc + d(x) if last == 'sum' else acc * d(x)
             return acc
         if last in ('min', 'max'):
-            r = [d(x) for x in it.drain()]
+            r = it.drain()
             if not r:
                 return NONE
             # max returns the last of equal maxima, min the first
-            best = r[0]
-            for x in r[1:]:
-                if (x >= best) if last == 'max' else (x < best):
-                    best = x
-            return Some(best)
+            ks = [self._sort_key(d(x)) for x in r]
+            best = 0
+            for i in range(1, len(r)):
+                if (ks[i] >= ks[best]) if last == 'max' else (ks[i] < ks[best]):
+                    best = i
+            return Some(r[best])
         if last == 'fold':
             acc = args[1]
             while True:
@@ -2946,11 +3147,26 @@ class VM:
             if r is not NotImplemented:
                 return r
         target = resolved or callee
+        if t is None and callee and '::' in callee:
+            # a call through a function value (`.map(Shape::area)`): is the path a method of one of the crate's traits?
+            tr_ = callee.rsplit('::', 1)[0]
+            traits_ = self.__dict__.setdefault('_trait_paths', None)
+            if traits_ is None:
+                traits_ = self._trait_paths = {x['path'] for x in self.facts.items.get('traits', [])}
+            if tr_ in traits_:
+                t = {'trait': tr_}
         if self.is_local(target) and not (t is not None and t.get('trait') and target == callee):
             return self.run(self.facts.mir_body(target), args)
         if t is not None and t.get('trait') and args:
             # unresolved trait method of a generic parameter: dispatch on the run-time type of the receiver
             v = self.deref(args[0])
+            for _ in range(4):
+                if isinstance(v, Struct) and v.name == 'Box':
+                    inner_ = v.fields['0'].fields['0'].fields['0']               # Box<dyn Trait>: the boxed value decides
+                    args = [inner_] + list(args[1:])
+                    v = self.deref(inner_)
+                else:
+                    break
             if isinstance(v, Iter) and v.rest():
                 v = self.deref(v.rest()[0])
             if isinstance(v, (Struct, Enum)):
